@@ -9,7 +9,7 @@ from typing import Dict, List, Optional, Tuple, Union
 
 from .core import AnalysisError
 from .prog import (Program, ClassInfo, ModuleInfo, dotted, enclosing, func_params, parent,
-                   single_def, unparse, walk_no_nested)
+                   single_def, unparse, value_def, walk_no_nested)
 
 
 class Slot:
@@ -18,6 +18,7 @@ class Slot:
         self.expr = expr        # bound expression (ast) or None when unbound
         self.field = field      # full field text, e.g. 'arg.default'
         self.sub = sub          # folded template of the bound expression when it is itself text
+        self.val = expr         # the expression the slot stands for, with a local name that stands for one expression resolved
 
     def __repr__(self):
         return f"<Slot {self.field or self.key}>"
@@ -54,6 +55,20 @@ class Tpl:
 
     def slots(self) -> List[Slot]:
         return [p for p in self.parts if isinstance(p, Slot)]
+
+    def flat(self, depth: int = 4) -> "Tpl":
+        """The template with every slot whose value is itself foldable text (a local bound to an f-string, a helper that
+        returns a template) replaced by that text's parts: `f' && isa({v},..)'` with `v = f'varargin{{{i}}}'` reads
+        ` && isa(varargin{<i>},..)`."""
+        parts: List[Union[str, Slot]] = []
+        for p in self.parts:
+            if isinstance(p, str) or p.sub is None or depth <= 0:
+                parts.append(p)
+            else:
+                parts += p.sub.flat(depth - 1).parts
+        t = Tpl(parts)
+        t.missing, t.unused, t.formatted = list(self.missing), list(self.unused), self.formatted
+        return t
 
     def slot(self, key: str) -> Optional[Slot]:
         for s in self.slots():
@@ -154,7 +169,25 @@ class Folder:
         self.depth = depth
 
     def fold(self, e: ast.AST, depth: Optional[int] = None) -> Optional[Tpl]:
-        """Template for expression e, or None when e is not (foldable) text."""
+        """Template for expression e, or None when e is not (foldable) text.  A slot bound to a local that stands for
+        one non-text expression (`cdef = "def_static" if is_static else "def"` ... `cdef=cdef`) carries that expression
+        in `slot.val` (`slot.expr` stays what the format call was given)."""
+        t = self._fold(e, depth)
+        if t is not None and self.fn is not None:
+            params = set(func_params(self.fn))
+            for s_ in t.parts:
+                seen = 0
+                while isinstance(s_, Slot) and s_.sub is None and isinstance(s_.val, ast.Name) and s_.val.id not in params and seen < 4:
+                    v = value_def(self.fn, s_.val.id)
+                    if v is None:
+                        break
+                    s_.val = v
+                    seen += 1
+                    if not isinstance(v, ast.Name):
+                        break
+        return t
+
+    def _fold(self, e: ast.AST, depth: Optional[int] = None) -> Optional[Tpl]:
         d = self.depth if depth is None else depth
         if d <= 0:
             return None
@@ -174,17 +207,25 @@ class Folder:
             t.formatted = True
             return t
         if isinstance(e, ast.BinOp) and isinstance(e.op, ast.Add):
-            l, r = self.fold(e.left, d - 1), self.fold(e.right, d - 1)
-            if l is None and r is None:
+            # the whole chain a + b + c + ...: text as soon as one operand is text, each other operand a slot of its own
+            ops: List[ast.AST] = []
+            x_ = e
+            while isinstance(x_, ast.BinOp) and isinstance(x_.op, ast.Add):
+                ops.insert(0, x_.right)
+                x_ = x_.left
+            ops.insert(0, x_)
+            folded = [self.fold(o, d - 1) for o in ops]
+            if all(f_ is None for f_ in folded):
                 return None
-            lp = l.parts if l is not None else [Slot("<expr>", e.left, unparse(e.left))]
-            rp = r.parts if r is not None else [Slot("<expr>", e.right, unparse(e.right))]
-            t = Tpl(lp + rp)
-            for x in (l, r):
-                if x is not None:
-                    t.missing += x.missing
-                    t.unused += x.unused
-            t.formatted = bool((l and l.formatted) or (r and r.formatted))
+            parts_: List[Union[str, Slot]] = []
+            for o, f_ in zip(ops, folded):
+                parts_ += f_.parts if f_ is not None else [Slot("<expr>", o, unparse(o))]
+            t = Tpl(parts_)
+            for f_ in folded:
+                if f_ is not None:
+                    t.missing += f_.missing
+                    t.unused += f_.unused
+            t.formatted = any(f_ is not None and f_.formatted for f_ in folded)
             return t
         if isinstance(e, ast.BinOp) and isinstance(e.op, ast.Mult):
             # ' ' * 8
